@@ -37,3 +37,30 @@ Proof.
   induction l as [|x l IH]; [reflexivity|]. cbn [filter].
   destruct (f x); cbn [negb length]; lia.
 Qed.
+
+(* ---- unique and sort commute ------------------------------------------------ *)
+Lemma subseq_in {A} (l1 l2 : list A) : subseq l1 l2 -> forall x, In x l1 -> In x l2.
+Proof.
+  induction 1 as [|y l1 l2 H IH|y l1 l2 H IH]; intros x Hx; [exact Hx | right; apply IH; exact Hx |].
+  destruct Hx as [->|Hx]; [left; reflexivity | right; apply IH; exact Hx].
+Qed.
+
+Lemma subseq_sorted (l1 l2 : list str) : subseq l1 l2 -> StronglySorted sle l2 -> StronglySorted sle l1.
+Proof.
+  induction 1 as [|y l1 l2 H IH|y l1 l2 H IH]; intros Hs; [constructor| |].
+  - apply IH. inversion Hs; assumption.
+  - inversion Hs as [|a b Hb Hall]; subst. constructor; [apply IH; exact Hb|].
+    apply Forall_forall. intros x Hx. rewrite Forall_forall in Hall. apply Hall.
+    eapply subseq_in; eassumption.
+Qed.
+
+(* removing duplicates and sorting can be done in either order *)
+Theorem unique_sort_commute (l : list str) : unique (sort_asc l) = sort_asc (unique l).
+Proof.
+  apply sort_characterised.
+  - eapply subseq_sorted; [apply unique_subseq | apply sort_sorted].
+  - apply NoDup_Permutation; [apply unique_nodup | apply unique_nodup|].
+    intros x. rewrite !unique_same_set. split; intros H.
+    + eapply Permutation_in; [apply sort_perm | exact H].
+    + eapply Permutation_in; [symmetry; apply sort_perm | exact H].
+Qed.
